@@ -1004,12 +1004,13 @@ Lemma xml_read_keep_encoded utf8 cw kq stop s rest : no_ref s = true -> stop_ok 
   read_keep utf8 stop fuel (xml_enc cw kq false s ++ stop :: rest) = Some s.
 Proof.
   intros NR SO. induction s as [|c t IH]; intros fuel Hf.
-  - cbn [xml_enc app read_keep]. now rewrite N.eqb_refl.
+  - cbn [xml_enc app]. destruct fuel; cbn [read_keep]; now rewrite N.eqb_refl.
   - rewrite xml_enc_step in * by assumption.
     assert (NRt : no_ref t = true) by (cbn [no_ref] in NR; apply andb_true_iff in NR; tauto).
     destruct (enc1_head cw kq c stop SO) as (h & tl & E & Hh).
-    rewrite <- app_assoc. rewrite E in *. cbn [app read_keep]. rewrite Hh.
+    rewrite <- app_assoc. rewrite E in *.
     destruct fuel as [|k]; [cbn [length app] in Hf; lia|].
+    cbn [app read_keep]. rewrite Hh.
     change (h :: tl ++ xml_enc cw kq false t ++ stop :: rest) with ((h :: tl) ++ xml_enc cw kq false t ++ stop :: rest).
     rewrite <- E. rewrite xml_char_roundtrip. rewrite (IH NRt k).
     + reflexivity.
